@@ -184,13 +184,34 @@ def editedRow (r : Entity) (a : SaveReq) (v : Nat) (nsId : Int) : Entity :=
 def replaceRow (r' : Entity) (ents : List Entity) : List Entity :=
   ents.map (fun e => if e.id == r'.id then r' else e)
 
+/-- which SaveEntity is modelled:
+    `Variant.old`     = the pinned tree;
+    `Variant.untyped` = + fixes/C15-builtin-namespace-rename.diff (commit 36b353ab): a "create" of an existing builtin namespace
+                        runs checkNamespace;
+    `Variant.fixed`   = + fixes/C15-edit-type-mismatch (commit fb668983): the edit path selects the row by (id, version, TYPE), so a
+                        request of a foreign type gets errInvalidMetricVersion. This is the current code. -/
+inductive Variant where
+  | old
+  | untyped
+  | fixed
+deriving DecidableEq, Repr
+
+/-- `AND type = $type` of the edit path's row selection (fb668983) -/
+def typeMatches (var : Variant) (r : Entity) (a : SaveReq) : Bool :=
+  match var with
+  | .fixed => r.typ == a.typ
+  | _ => true
+
 def versionMatches (r : Entity) (a : SaveReq) : Bool := r.version == a.oldVersion
 
-def saveEdit (s : State) (a : SaveReq) (nsId : Int) : State × SaveOut :=
+/-- `SELECT … WHERE version = $oldVersion AND id = $id AND type = $type` finds the row -/
+def rowMatches (var : Variant) (r : Entity) (a : SaveReq) : Bool := versionMatches r a && typeMatches var r a
+
+def saveEdit (var : Variant) (s : State) (a : SaveReq) (nsId : Int) : State × SaveOut :=
   match rowOf s.ents a.id with
   | none => (s, .err .invalidVersion)
   | some r =>
-    if versionMatches r a then
+    if rowMatches var r a then
       if conflict s.ents r.id nsId r.typ a.name then (s, .err .constraint)
       else
         let v := maxVer s.ents + 1
@@ -213,13 +234,6 @@ def saveCreate (s : State) (a : SaveReq) (nsId : Int) : State × SaveOut :=
     ({ s with ents := insertById (createdRow a (newId s a) v nsId) s.ents, entSeq := newSeq s a, hist := s.hist ++ [ev] },
      .ok ev true)
 
-/-- `Variant.fixed` = SaveEntity with fixes/C15-builtin-namespace-rename.diff applied; `Variant.old` = the pinned tree, where a
-    request with the create flag for an EXISTING builtin (negative id) namespace skips checkNamespace and can rename the row. -/
-inductive Variant where
-  | old
-  | fixed
-deriving DecidableEq, Repr
-
 /-- the request reached the edit path although its create flag is set (only possible for an existing negative id) -/
 def lateNsEdit (a : SaveReq) : Bool := a.typ == tNamespace && a.create
 
@@ -227,7 +241,7 @@ def lateNsEdit (a : SaveReq) : Bool := a.typ == tNamespace && a.create
 def lateCheck (var : Variant) (s : State) (a : SaveReq) : Option Err :=
   match var with
   | .old => none
-  | .fixed =>
+  | _ =>
     if lateNsEdit a then
       match nsRow s.ents a.id a.oldVersion with
       | none => some .nsMissing
@@ -240,7 +254,7 @@ def saveResolved (var : Variant) (s : State) (a : SaveReq) (nsId : Int) : State 
   else
     match lateCheck var s a with
     | some e => (s, .err e)
-    | none => saveEdit s a nsId
+    | none => saveEdit var s a nsId
 
 /-- dbv2.go SaveEntity (one transaction) -/
 def saveV (var : Variant) (s : State) (a : SaveReq) : State × SaveOut :=
